@@ -219,6 +219,9 @@ impl Lane for C11 {
         }
         vs.extend(run_top(&TOp::MapUnion { d: d.clone(), e: e.clone() }, &sc.confs, st, class));
         let _ = relation_class; // relation classes are counted inside run_top
+        if d.order() >= 2 && d.size() >= 1 {
+            st.case(&[vmodel::rng::digest(serde_json::to_string(&sc.body).unwrap().as_bytes())]);
+        }
         // sequential implementations: once per input (no schedule to vary)
         let comp = d.complement();
         let conv = d.converse();
